@@ -440,14 +440,13 @@ pub fn h_c04_cell_input() {
 }
 
 /// a failed block move at the end of the grid on a sheet that holds cells: nothing may be lost half way
-/// (two number cells and one hidden line in the last rows / columns of the grid; block of <=2 lines, offset within +-2)
+/// (two adjacent number cells and two adjacent hidden lines in the last five rows / columns of the grid; block of <=2 lines, offset within +-2)
 pub fn h_c04_move_lines_with_cells() {
     let rows = any_bool();
     let last = if rows { LAST_ROW } else { LAST_COLUMN };
     let mut ws = empty_sheet("Sheet1", 1);
-    let p = any_i32_in(last - 2, last);
-    let q = any_i32_in(last - 2, last);
-    assume(p < q);
+    let p = any_i32_in(last - 4, last - 1);
+    let q = p + 1;
     if rows {
         let mut r1: StdHashMap<i32, Cell> = StdHashMap::new();
         r1.insert(2, Cell::NumberCell { v: 1.5, s: 0 });
@@ -462,13 +461,15 @@ pub fn h_c04_move_lines_with_cells() {
         ws.sheet_data.insert(2, r1);
     }
     // one hidden line near the end: the UserModel widens the offset by the hidden lines it jumps over
-    let h = any_i32_in(last - 3, last);
-    if rows { ws.rows.push(Row { r: h, height: 15.0, custom_format: false, custom_height: false, s: 0, hidden: true }); }
-    else { ws.cols.push(Col { min: h, max: h, width: 10.0, custom_width: false, style: None, hidden: true }); }
+    let h = any_i32_in(last - 3, last - 1);
+    if rows {
+        ws.rows.push(Row { r: h, height: 15.0, custom_format: false, custom_height: false, s: 0, hidden: true });
+        ws.rows.push(Row { r: h + 1, height: 15.0, custom_format: false, custom_height: false, s: 0, hidden: true });
+    } else { ws.cols.push(Col { min: h, max: h + 1, width: 10.0, custom_width: false, style: None, hidden: true }); }
     let mut wb = workbook_with_cells(vec![]);
     wb.worksheets = vec![ws];
     let mut um = user_model_paused(wb);
-    let (line, count, delta) = (any_i32_in(last - 4, last + 1), any_i32_in(1, 2), any_i32_in(-2, 2));
+    let (line, count, delta) = (any_i32_in(last - 5, last + 1), any_i32_in(1, 2), any_i32_in(-2, 2));
     let before = um.model.workbook.clone();
     let (nu, nr, nq) = (um.history.undo_stack.len(), um.history.redo_stack.len(), um.send_queue.len());
     let res = if rows { um.move_rows_action(0, line, count, delta) } else { um.move_columns_action(0, line, count, delta) };
